@@ -180,7 +180,7 @@ def walk_paths(root, mode="int"):
         for c, p in zip(f.coords, f.payloads):
             if isinstance(p, Fiber):
                 ok, cc = proj_coord(c, mode)
-                rec(p, path + [cc if ok else -999], depth + 1)
+                rec(p, path + [cc if ok else (-999 if mode == "int" else [-999])], depth + 1)      # same JSON type as the well-formed coordinates of the mode
 
     if isinstance(root, Fiber):
         rec(root, [], 0)
